@@ -337,6 +337,13 @@ def run(run: Run):
     run.rule('C07.R4', 'a cell is code only if it is a str whose first character is "=" (shared with C18.R4)')
     borrow(run, 'C07.R4', c18.r4, src)
     run.floor('C07.R4', 2)
+    run.rule('C07.R5', 'a string literal reaches its token with its own characters: the lexer never rewrites the formula text (shared with C05.R10)')
+    borrow(run, 'C07.R5', c05.r10_formula_text_untouched, src)
+    run.floor('C07.R5', 2)
+    from . import c17
+    run.rule('C07.R6', 'a text literal in operand position denotes its own text, whatever characters it contains (shared with C17.R6)')
+    borrow(run, 'C07.R6', c17.r6, src, g, em)
+    run.floor('C07.R6', 2)
     run.floor('C07.R1', 70)
     run.floor('C07.R2', 2)
     run.floor('C07.R3', 1)
